@@ -39,7 +39,7 @@ class PipeNet:
         self.sched.ev(name, **kw)
 
 
-def run_once(sc, schedule, seed=None, line_preempt=None):
+def run_once(sc, schedule, seed=None, line_preempt=None, back=False):
     """sc: senders (list of payload bytes), write_caps, receivers (int), stream (bytes), read_cap.
     Returns (events for TraceSend, choices)."""
     import websocket
@@ -68,7 +68,9 @@ def run_once(sc, schedule, seed=None, line_preempt=None):
                         others = [t for t in sched.runnable() if t is not me and t.name != "main"]
                         if others:
                             sched.ev("preempt", func=frame.f_code.co_name, line=frame.f_lineno)
-                            sched.schedule = [others[0].name]
+                            # the other thread runs; with back=True only up to its next blocking primitive (a transport
+                            # write / read), then the preempted thread goes on while the other one is in mid-operation
+                            sched.schedule = [others[0].name] + ([me.name] if back else [])
                             sched.yield_("preempt")
                 return local
             return local
@@ -94,9 +96,17 @@ def run_once(sc, schedule, seed=None, line_preempt=None):
 
         def sender(i, payload):
             def f():
-                sched.ev("call", api="send", payload=list(payload))
+                raw = payload.encode("latin-1") if isinstance(payload, str) else bytes(payload)
+                sched.ev("call", api="send", payload=list(raw))
                 try:
-                    v = ws.send_binary(payload)
+                    if sc.get("send_api") == "ping":
+                        ws.ping(payload)
+                        v = 0
+                    elif sc.get("send_api") == "pong":
+                        ws.pong(payload)
+                        v = 0
+                    else:
+                        v = ws.send_binary(payload)
                     sched.ev("ret", value=int(v))
                 except Exception as e:     # noqa
                     sched.ev("raise", cls=type(e).__name__)
@@ -156,8 +166,10 @@ def run_once(sc, schedule, seed=None, line_preempt=None):
     # harness decoder over the complete wire (content of frames larger than the recorded 300 bytes)
     try:
         frames = wire.decode_client_frames(bytes(net.wire))
-        datas = sorted(f["payload"] for f in frames if f["op"] == 2)
-        wire_ok = datas == sorted(bytes(p) for p in sc.get("senders", [])) and all(f["masked"] and f["fin"] for f in frames)
+        want_op = {"ping": 9, "pong": 10}.get(sc.get("send_api"), 2)
+        datas = sorted(f["payload"] for f in frames if f["op"] == want_op and not (want_op == 10 and f["payload"] in [p["payload"] for p in pings]))
+        wire_ok = datas == sorted((p.encode("latin-1") if isinstance(p, str) else bytes(p)) for p in sc.get("senders", [])) \
+            and all(f["masked"] and f["fin"] for f in frames)
     except Exception:
         wire_ok = False
     if line_preempt is not None:
@@ -215,7 +227,10 @@ def scenarios(rng, tier):
     two = wire.sframe(1, b"m1") + wire.sframe(1, b"m2") + wire.sframe(2, b"\x01", 0) + wire.sframe(0, b"\x02", 1)
     scs.append(dict(name="recv2_lines", receivers=2, stream=two, recv_calls=3, read_cap=None, senders=[], bound=0, max_runs=1,
                     line_level=3 if tier == "quick" else 1))
-    scs.append(dict(name="send2_lines", senders=[b"\x01", b"\x02\x02"], write_caps=[3], bound=0, max_runs=1, line_level=3 if tier == "quick" else 1))
+    scs.append(dict(name="send2_lines", senders=[b"\x01", b"\x02\x02"], write_caps=[3], bound=0, max_runs=1, line_level=1, back=True))
+    # a str payload with characters beyond ASCII in a binary frame (one byte per character, as the library defines it)
+    scs.append(dict(name="send2_str", senders=["caf\xe9", b"\x02\x02"], write_caps=[2], bound=1, max_runs=60 if tier == "quick" else 600))
+    scs += ping_scenarios(tier)
     if tier == "thorough":
         scs.append(dict(name="send4", senders=[bytes([i + 1] * 2) for i in range(4)], write_caps=[3], bound=1, max_runs=3000))
         scs.append(dict(name="recv3", receivers=3, stream=stream, recv_calls=3, read_cap=2, senders=[], bound=2, max_runs=3000))
@@ -236,9 +251,11 @@ def _explore_scenario(args):
     if sc.get("line_level"):
         ev0, _ = run_once(sc, [], line_preempt=10 ** 9)
         total = ev0[0].get("lines", 0)
-        for kline in range(1, total + 1, sc["line_level"]):
-            ev, choices = run_once(sc, [], line_preempt=kline)
-            tid = "%s#L%d" % (sc["name"], kline)
+        # back: besides "the other thread runs until it blocks", schedules in which - after the preemption - the threads are
+        # switched at random at every later primitive (so that the preempted thread can go on while the other is mid-frame)
+        for kline, back in [(k_, b_) for k_ in range(1, total + 1, sc["line_level"]) for b_ in ((0, 1, 2, 3) if sc.get("back") else (0,))]:
+            ev, choices = run_once(sc, [], line_preempt=kline, seed=(seed * 1000 + kline * 7 + back) if back else None)
+            tid = "%s#L%d%s" % (sc["name"], kline, ("r%d" % back) if back else "")
             for i, e in enumerate(ev):
                 e["tid"] = tid
                 e["i"] = i
@@ -251,6 +268,63 @@ def _explore_scenario(args):
             e["i"] = i
         traces.append((tid, ["seed", seed * 1000 + j], ev))
     return sc["name"], traces
+
+
+def validate_schedules(ctx, pid, scs, tag, own=("C12",)):
+    """explores the scenarios' schedules against the real library and validates every trace with TraceSend;
+    clauses of the properties in `own` are violations of `pid`"""
+    jobs = [(sc, ctx.seed, 20 if ctx.tier == "quick" else 200) for sc in scs]
+    all_traces = []
+    with cf.ProcessPoolExecutor(12) as ex:
+        for name, traces in ex.map(_explore_scenario, jobs):
+            ctx.notes.setdefault("schedules", {})[name] = len(traces)
+            all_traces += traces
+    d = tlc.scratch("%s_in" % tag)
+    shards = 8 if len(all_traces) > 400 else 1
+    by_tid = {t[0]: t for t in all_traces}
+
+    def job(k):
+        path = os.path.join(d, "t%d.ndjson" % k)
+        with open(path, "w") as f:
+            for tid, prefix, ev in all_traces[k::shards]:
+                for e in ev:
+                    f.write(json.dumps(e, separators=(",", ":")) + "\n")
+        return k, tlc.run("TraceSend", "SPECIFICATION TSpec\nINVARIANT TWire\nINVARIANT Report\n", "%s_v%d" % (tag, k),
+                          env={"TRACE_FILE": path}, workers=1, timeout=3000, heap="3g")
+    with cf.ThreadPoolExecutor(shards) as ex:
+        for k, r in ex.map(job, range(shards)):
+            ctx.add_tlc(r, "TraceSend shard %d" % k)
+            if r.violated:
+                ctx.machinery_error = "TraceSend invariant violated: %s" % r.violated
+            v = tlc.emitted(r, "VERDICT")[0]
+            for b in v["bad"]:
+                tid, prefix, ev = by_tid[b["tid"]]
+                owner = b["why"].split(".")[0]
+                if owner == "harness":
+                    ctx.machinery_error = "harness inconsistency %s in %s" % (b["why"], tid)
+                elif owner in own or owner == pid:
+                    ctx.deviation(None, "schedule %s (choices %s): event %d breaks %s" % (tid, prefix[:30], b["at"], b["why"]),
+                                  {"scenario": tid.split("#")[0], "schedule": prefix, "clause": b["why"],
+                                   "trace": [{k2: v2 for k2, v2 in e.items() if k2 != "offered"} for e in ev[max(0, b["at"] - 8):b["at"] + 2]]})
+                else:
+                    ctx.remark("clause %s failed in a %s schedule; judged by ./check %s" % (b["why"], pid, owner))
+    ctx.traces += len(all_traces)
+    for tid, prefix, ev in all_traces:
+        ctx.case((tid.split("#")[0], tuple(prefix)), nontrivial=True)
+    if len(all_traces) > 3:
+        ctx.sample({"schedule": all_traces[3][0], "choices": all_traces[3][1], "events": [{k2: v2 for k2, v2 in e.items() if k2 not in ("offered", "stream")} for e in all_traces[3][2][:12]]})
+
+
+def ping_scenarios(tier):
+    """threads calling ping() / pong() while a receiver answers the server's pings"""
+    scs = []
+    pingy = wire.sframe(9, b"server-ping-1") + wire.sframe(1, b"m") + wire.sframe(9, b"sp2")
+    for api in ("ping", "pong"):
+        scs.append(dict(name="%s2_recv1" % api, senders=[b"own-a", b"own-bbbbbbbbbbbbbbbb"], send_api=api, receivers=1, stream=pingy, recv_calls=1,
+                        write_caps=[3], bound=2, max_runs=250 if tier == "quick" else 3000))
+        scs.append(dict(name="%s1_recv1_lines" % api, senders=[b"own-a"], send_api=api, receivers=1, stream=pingy, recv_calls=1, write_caps=None,
+                        bound=0, max_runs=1, line_level=2 if tier == "quick" else 1))
+    return scs
 
 
 def main(ctx):
@@ -268,46 +342,7 @@ def main(ctx):
     if "MonitorOk" not in r1.violated or "MonitorOk" not in r2.violated:
         ctx.machinery_error = "SendMC cannot see the bugs it is meant to exclude: %s %s" % (r1.violated, r2.violated)
     # C. schedules of the real library
-    scs = scenarios(rng, ctx.tier)
-    jobs = [(sc, ctx.seed, 20 if ctx.tier == "quick" else 200) for sc in scs]
-    all_traces = []
-    with cf.ProcessPoolExecutor(12) as ex:
-        for name, traces in ex.map(_explore_scenario, jobs):
-            ctx.notes.setdefault("schedules", {})[name] = len(traces)
-            all_traces += traces
-    d = tlc.scratch("c12_in")
-    shards = 8
-    by_tid = {t[0]: t for t in all_traces}
-
-    def job(k):
-        path = os.path.join(d, "t%d.ndjson" % k)
-        with open(path, "w") as f:
-            for tid, prefix, ev in all_traces[k::shards]:
-                for e in ev:
-                    f.write(json.dumps(e, separators=(",", ":")) + "\n")
-        return k, tlc.run("TraceSend", "SPECIFICATION TSpec\nINVARIANT TWire\nINVARIANT Report\n", "c12_v%d" % k,
-                          env={"TRACE_FILE": path}, workers=1, timeout=3000, heap="3g")
-    with cf.ThreadPoolExecutor(shards) as ex:
-        for k, r in ex.map(job, range(shards)):
-            ctx.add_tlc(r, "TraceSend shard %d" % k)
-            if r.violated:
-                ctx.machinery_error = "TraceSend invariant violated: %s" % r.violated
-            v = tlc.emitted(r, "VERDICT")[0]
-            for b in v["bad"]:
-                tid, prefix, ev = by_tid[b["tid"]]
-                owner = b["why"].split(".")[0]
-                if owner == "harness":
-                    ctx.machinery_error = "harness inconsistency %s in %s" % (b["why"], tid)
-                elif owner == "C12":
-                    ctx.deviation(None, "schedule %s (choices %s): event %d breaks %s" % (tid, prefix[:30], b["at"], b["why"]),
-                                  {"scenario": tid.split("#")[0], "schedule": prefix, "clause": b["why"],
-                                   "trace": [{k2: v2 for k2, v2 in e.items() if k2 != "offered"} for e in ev[max(0, b["at"] - 8):b["at"] + 2]]})
-                else:
-                    ctx.remark("clause %s failed in a C12 schedule; judged by ./check %s" % (b["why"], owner))
-    ctx.traces += len(all_traces)
-    for tid, prefix, ev in all_traces:
-        ctx.case((tid.split("#")[0], tuple(prefix)), nontrivial=True)
-    ctx.sample({"schedule": all_traces[3][0], "choices": all_traces[3][1], "events": [{k2: v2 for k2, v2 in e.items() if k2 not in ("offered", "stream")} for e in all_traces[3][2][:12]]})
+    validate_schedules(ctx, "C12", scenarios(rng, ctx.tier), "c12")
     ctx.remark("recv_data()/recv_data_frame() are not covered by the read lock: two threads calling them directly can tear a "
                "fragmented message under one line-level preemption; C12's receivers are read as users of recv() (DESIGN 0a)")
     ctx.trusted += ["TLC 1.8", "deterministic scheduler vf/schedworld.py (yield points: lock acquire, transport send/recv)",
